@@ -136,9 +136,9 @@ func Mutants(filename, src string, ops map[string]bool) []Mutant {
 				for _, fld := range n.Recv.List {
 					switch t := fld.Type.(type) {
 					case *ast.ParenExpr:
-			// one more pair of parentheses around an already parenthesised expression or type
-			add("doubleParen", n.Pos(), "", Edit{off(n.Pos()), off(n.End()), "(" + text(n) + ")"})
-		case *ast.StarExpr:
+						// one more pair of parentheses around an already parenthesised expression or type
+						add("doubleParen", n.Pos(), "", Edit{off(n.Pos()), off(n.End()), "(" + text(n) + ")"})
+					case *ast.StarExpr:
 						add("parenRecv", t.Pos(), "", Edit{off(t.X.Pos()), off(t.X.End()), "(" + text(t.X) + ")"})
 						add("parenRecvStar", t.Pos(), "", Edit{off(t.Pos()), off(t.End()), "(" + text(t) + ")"})
 					default:
